@@ -54,7 +54,7 @@ CHECKS["C12"] = ("fault_enumeration",
     "reachability protocol model-checked by TLC (Outage.tla: deadlock freedom, NoDrop, Recovers under fairness)",
     "Fault enumeration over where the outage starts (request path / block-processing path / idle / header, block or best-tip "
     "download inside a multi-block poll), how many failing polls it lasts and whether blocks are mined meanwhile. The node is "
-    "brought back and recovery must happen by itself: a thread still blocked 14 s later (Carrier probe interval 10 s + slack) "
+    "brought back and recovery must happen by itself: a thread still blocked 25 s later (Carrier probe interval 10 s + slack) "
     "is a violation. Outage.tla checks the lock/flag protocol exhaustively (and, as a vacuity check, that the protocol "
     "without the Carrier's own probe deadlocks). The same on the REAL teosd binary (end-to-end tier: answers of one RPC method / of "
     "the whole simulated node dropped; from the tower's first dropped RPC every request must be answered 'service unavailable'; "
